@@ -347,13 +347,15 @@ def run_random(task):
     recs = [rec]
     if disk_root:
         # --- C git as third opinion on the same objects
+        import shutil
+        have_git = shutil.which("git") is not None
         tips = [c for c in range(1, n + 1) if not any(c in p for p in par)]
         for c in tips:
             repo.refs[b"refs/heads/t%d" % c] = h.ids[c - 1]
         g = GitOracle(disk_root, h)
         ng = 0
         for q in qs:
-            if ng >= task["ngit"]:
+            if ng >= task["ngit"] or not have_git:
                 break
             a = g.answer(q)
             if a is not None:
@@ -365,7 +367,7 @@ def run_random(task):
         res["git"] = ng
         res["mismatch"] = nmiss
         # --- the same questions with a commit-graph file (dulwich's writer, then git's)
-        for writer in ("dulwich", "git"):
+        for writer in ("dulwich", "git") if have_git else ("dulwich",):
             try:
                 if writer == "dulwich":
                     repo.object_store.write_commit_graph(list(h.ids))
@@ -578,26 +580,30 @@ def run(ctx):
     d = ctx.tmpdir("c13")
     jobs = Jobs(w=ctx.pick(2, 4))
     seed = ctx.seed
-    # ---- 1. TLC enumerates the cases (spec -> code input)
-    jobs.submit("cases4", "GraphCases.tla", cases_cfg(d, "cases4", 4, 4, 0, seed), dump_states=os.path.join(d, "cases4"), workers=3)
-    if ctx.quick:
-        jobs.submit("cases5", "GraphCases.tla", cases_cfg(d, "cases5", 5, 5, 3, seed), dump_states=os.path.join(d, "cases5"))
-    else:
-        jobs.submit("cases5", "GraphCases.tla", cases_cfg(d, "cases5", 5, 5, 0, seed), dump_states=os.path.join(d, "cases5"), workers=4)
-        jobs.submit("cases6", "GraphCases.tla", cases_cfg(d, "cases6", 6, 6, 4, seed), dump_states=os.path.join(d, "cases6"), workers=6)
-    # ---- 2. negative controls: TLC must find that today's algorithm is inexact (and under which clocks)
-    jobs.submit("neg_ff", "GraphMC.tla", mc_cfg(ctx, d, "neg_ff", n=3, l=3, mode="ff", usemin=True, reduce=False, inv=["Exact"]))
+    # ---- 1. negative controls: TLC must find that today's algorithm is inexact (and under which clocks)
+    jobs.submit("neg_ff", "GraphMC.tla", mc_cfg(ctx, d, "neg_ff", n=3, l=3, mode="ff", usemin=True, reduce=False, inv=["Exact"]), workers=2)
     jobs.submit("neg_lcas", "GraphMC.tla", mc_cfg(ctx, d, "neg_lcas", n=4, l=2, mode="lcas", usemin=True, reduce=False,
-                                                  tiebreak="asc", inv=["Exact"]))
+                                                  tiebreak="asc", inv=["Exact"]), workers=2)
+    # ---- 2. TLC enumerates the cases (spec -> code input)
+    jobs.submit("cases4", "GraphCases.tla", cases_cfg(d, "cases4", 4, 4, 0, seed), dump_states=os.path.join(d, "cases4"), workers=2)
+    if ctx.quick:
+        jobs.submit("cases5", "GraphCases.tla", cases_cfg(d, "cases5", 5, 5, 3, seed), dump_states=os.path.join(d, "cases5"), workers=2)
+    else:
+        jobs.submit("cases5", "GraphCases.tla", cases_cfg(d, "cases5", 5, 5, 0, seed), dump_states=os.path.join(d, "cases5"), workers=2)
     jobs.submit("neg_walk", "GraphMC.tla", mc_cfg(ctx, d, "neg_walk", n=4, l=3, mode="walk", usemin=True, reduce=False,
-                                                  maxextra=1, inv=["WalkExcludes"]))
+                                                  maxextra=1, inv=["WalkExcludes"]), workers=2)
+    if not ctx.quick:
+        jobs.submit("cases6", "GraphCases.tla", cases_cfg(d, "cases6", 6, 6, 4, seed), dump_states=os.path.join(d, "cases6"), workers=4)
     neg = {}
-    for name, expect in (("neg_ff", "Exact"), ("neg_lcas", "Exact"), ("neg_walk", "WalkExcludes")):
+
+    def negative_control(name, expect):
         r = jobs.get(name)
         ctx.add_tlc(f"GraphMC {name} (negative control: today's algorithm, any clock, expects {expect} violated)", r, require_ok=False)
         if expect not in r.violated:
             raise MachineryError(f"negative control {name} did not find {expect}\n{r.output[-2000:]}")
         neg[name] = r
+    negative_control("neg_ff", "Exact")
+    negative_control("neg_lcas", "Exact")
     # the counterexamples are replayed on the real functions; that also tells which variant of
     # graph.py this tree implements (today's, or the repaired one of out/proposed_fixes)
     usemin = replay_cex(ctx, neg["neg_ff"], "ff") != "exact"
@@ -697,6 +703,7 @@ def run(ctx):
             break
 
     # ---- 7. collect the model-checking runs
+    negative_control("neg_walk", "WalkExcludes")
     for name, kw in mcs:
         r = jobs.get(name)
         ctx.add_tlc(f"GraphMC {name} N={kw['n']} L={kw['l']} mode={kw['mode']} UseMinStamp={kw['usemin']} Reduce={kw['reduce']} "
